@@ -124,9 +124,14 @@ class Celestial(Dynamics, metaclass=ABCMeta):
             ``ndarray``: updated state vector after applying any events.
         """
         # Save original shape of the input state
+        simultaneous_impulses = self._simultaneousImpulses(t_events, events)
         for event_index, event in enumerate(events):
-            if t_events[event_index].size > 0:
-                current_time = t_events[event_index][-1]
+            if t_events[event_index].size > 0 or event_index in simultaneous_impulses:
+                current_time = (
+                    t_events[event_index][-1]
+                    if t_events[event_index].size > 0
+                    else simultaneous_impulses[event_index]
+                )
                 if isinstance(event, ScheduledFiniteThrust):
                     self.finite_thrust = event.getStateChangeCallback(current_time)
                 else:
@@ -138,7 +143,37 @@ class Celestial(Dynamics, metaclass=ABCMeta):
         return current_state
 
     @staticmethod
+    def _simultaneousImpulses(
+        t_events: ndarray,
+        events: list[ScheduledEventType],
+    ) -> dict[int, float]:
+        r"""Find scheduled impulses that take place at the same time as an impulse that stopped integration.
+
+        ``solve_ivp`` reports only the first of several terminal events that occur at the same time.
+
+        Args:
+            t_events (``ndarray``): times of events that occurred during integration.
+            events (``list``): event functions that are ``Callable`` of the form :math:`g(t, y) = 0`.
+
+        Returns:
+            ``dict``: index into `events` of each such unreported impulse, mapped to the time it takes place.
+        """
+        reported = {
+            event.time: t_events[event_index][-1]
+            for event_index, event in enumerate(events)
+            if isinstance(event, ScheduledImpulse) and t_events[event_index].size > 0
+        }
+        return {
+            event_index: reported[event.time]
+            for event_index, event in enumerate(events)
+            if isinstance(event, ScheduledImpulse)
+            and t_events[event_index].size == 0
+            and event.time in reported
+        }
+
+    @classmethod
     def _dropAppliedImpulses(
+        cls,
         t_events: ndarray,
         events: list[ScheduledEventType],
     ) -> list[ScheduledEventType]:
@@ -154,10 +189,14 @@ class Celestial(Dynamics, metaclass=ABCMeta):
         Returns:
             ``list``: event functions still to be monitored when integration resumes.
         """
+        simultaneous_impulses = cls._simultaneousImpulses(t_events, events)
         return [
             event
             for event_index, event in enumerate(events)
-            if not (isinstance(event, ScheduledImpulse) and t_events[event_index].size > 0)
+            if not (
+                isinstance(event, ScheduledImpulse)
+                and (t_events[event_index].size > 0 or event_index in simultaneous_impulses)
+            )
         ]
 
     def propagate(
